@@ -273,6 +273,27 @@ pub fn record_c15(a: &Args) -> usize {
         let src = cat(&[&Enc(len as u16, 0, d).to_bytes_with_newline(), &f2.to_bytes_with_newline(), b"x"]);
         n += run_reads(&mut out, &src, [usize::MAX, 1, 255, 256, 16][len % 5], vec![], None, 4);
     }
+    // lines that announce more (or less) data than they carry -- a frame cut off in transit, a damaged length byte -- followed
+    // by further frames: whatever the first characters promise, a read ends at the first line feed
+    for declared in [0x00u8, 0x01, 0x10, 0x3F, 0x40, 0x41, 0x7F, 0x80, 0xFE, 0xFF] {
+        for actual in [0usize, 1, 5, 20, 64, 200] {
+            if actual == declared as usize || (!thorough && (declared as usize + actual) % 3 == 2) {
+                continue;
+            }
+            out.balance();
+            let d: Vec<u8> = (0..actual).map(|i| (i * 7 + declared as usize) as u8).collect();
+            let mut line = Enc(0x0102, 0, d).to_bytes_with_newline();
+            let dd = format!("{:02X}", declared);
+            line[1] = dd.as_bytes()[0];
+            line[2] = dd.as_bytes()[1];
+            let src = cat(&[&line, &f2.to_bytes_with_newline(), &f1.to_bytes_with_newline(), b"tail"]);
+            n += run_reads(&mut out, &src, [usize::MAX, 1, 3, 64, 600][(declared as usize + actual) % 5], vec![], None, 4);
+            // and cut in the middle of a pair, without its checksum
+            let cut = line.len() / 2 | 1;
+            let src = cat(&[&line[..cut], b"\r\n", &f1.to_bytes_with_newline(), &f2.to_bytes_with_newline()]);
+            n += run_reads(&mut out, &src, [2usize, usize::MAX, 1][actual % 3], vec![], None, 4);
+        }
+    }
     // interrupt storms: very many interrupted reads within one frame read (they must stay invisible however often they occur)
     {
         let big = Enc(0xABCD, 0x11, (0..255).map(|x| (x * 3) as u8).collect::<Vec<u8>>()).to_bytes_with_newline();
@@ -491,7 +512,7 @@ impl SerialPortSettings for ISettings {
         Some(self.line.flow)
     }
     fn set_baud_rate(&mut self, baud_rate: BaudRate) -> serial_core::Result<()> {
-        let fail = self.st.borrow().fail == "set_baud_rate";
+        let fail = self.st.borrow().fail.split('+').any(|f| f == "set_baud_rate");
         self.st.borrow_mut().dev_log.push(json!({"e": "dev", "call": "set_baud_rate", "ok": !fail}));
         if fail {
             let k = self.st.borrow().fail_kind;
@@ -591,7 +612,7 @@ impl SerialDevice for IPort {
     type Settings = ISettings;
 
     fn read_settings(&self) -> serial_core::Result<ISettings> {
-        let fail = self.st.borrow().fail == "read_settings";
+        let fail = self.st.borrow().fail.split('+').any(|f| f == "read_settings");
         self.st.borrow_mut().dev_log.push(json!({"e": "dev", "call": "read_settings", "ok": !fail}));
         if fail {
             let k = self.st.borrow().fail_kind;
@@ -600,7 +621,7 @@ impl SerialDevice for IPort {
         Ok(ISettings { line: self.st.borrow().line.clone(), st: self.st.clone() })
     }
     fn write_settings(&mut self, settings: &ISettings) -> serial_core::Result<()> {
-        let fail = self.st.borrow().fail == "write_settings";
+        let fail = self.st.borrow().fail.split('+').any(|f| f == "write_settings");
         self.st.borrow_mut().dev_log.push(json!({"e": "dev", "call": "write_settings", "ok": !fail}));
         if fail {
             let k = self.st.borrow().fail_kind;
@@ -613,7 +634,7 @@ impl SerialDevice for IPort {
         self.st.borrow().timeout.unwrap_or(Duration::from_secs(0))
     }
     fn set_timeout(&mut self, timeout: Duration) -> serial_core::Result<()> {
-        let fail = self.st.borrow().fail == "set_timeout";
+        let fail = self.st.borrow().fail.split('+').any(|f| f == "set_timeout");
         self.st.borrow_mut().dev_log.push(json!({"e": "dev", "call": "set_timeout", "ok": !fail, "value": format!("{}.{:09}", timeout.as_secs(), timeout.subsec_nanos())}));
         if fail {
             let k = self.st.borrow().fail_kind;
@@ -679,7 +700,9 @@ pub fn record_c20(a: &Args) -> usize {
     let parities = [Parity::ParityNone, Parity::ParityOdd, Parity::ParityEven];
     let stops = [StopBits::Stop1, StopBits::Stop2];
     let flows = [FlowControl::FlowNone, FlowControl::FlowSoftware, FlowControl::FlowHardware];
-    let fails = ["none", "read_settings", "set_baud_rate", "write_settings", "set_timeout"];
+    // one refused call, and every pair of refused calls (a port that is going away refuses everything)
+    let fails = ["none", "read_settings", "set_baud_rate", "write_settings", "set_timeout", "read_settings+set_timeout", "set_baud_rate+set_timeout",
+                 "write_settings+set_timeout", "read_settings+write_settings", "set_baud_rate+write_settings", "read_settings+set_baud_rate+write_settings+set_timeout"];
     let ctors = ["configure_port", "bus", "odk"];
     let mut k = 0usize;
     let mut runs = 0usize;
@@ -715,7 +738,14 @@ pub fn record_c20(a: &Args) -> usize {
                                     Duration::new(u32::MAX as u64 + 7, 999_999_999),
                                     Duration::MAX,
                                     Duration::from_nanos(1),
-                                ][k % 10];
+                                    Duration::from_millis(1 << 32),
+                                    Duration::from_millis((1 << 32) - 1),
+                                    Duration::from_millis(3 << 32),
+                                    Duration::from_millis(1 << 31),
+                                    Duration::from_millis(1 << 16),
+                                    Duration::from_secs(1 << 32),
+                                    Duration::from_micros(1_000_001),
+                                ][k % 17];
                                 let treq = format!("{}.{:09}", timeout.as_secs(), timeout.subsec_nanos());
                                 out.emit(json!({"e": "setup", "ctor": ctor, "prior": line_json(&prior), "timeout": treq, "fail": fail, "kind": (runs / 3) % DEV_ERROR_KINDS}));
                                 let res = match *ctor {
@@ -840,6 +870,15 @@ fn reply_tapes(rng: &mut StdRng, own: u16) -> Vec<Vec<u8>> {
     let k = rng.gen_range(1..bad.len() - 2);
     bad[k] = b'G';
     firsts.push(bad);
+    // the bus's own requests coming back (a half-duplex adapter echoes what was written), in the addresses the messages use
+    for ad in [own, 0, 0xFFFF] {
+        let a2 = Address(ad);
+        firsts.push(Frame::from(Message::Hello(a2)).to_bytes_with_newline());
+        firsts.push(Frame::from(Message::QueryState(a2)).to_bytes_with_newline());
+        for o in j::OPS {
+            firsts.push(Frame::from(Message::RequestOperation(a2, o)).to_bytes_with_newline());
+        }
+    }
     let mut tapes: Vec<Vec<u8>> = firsts.into_iter().map(|mut f| { f.extend_from_slice(&second); f }).collect();
     tapes.push(vec![]); // nothing: time-out
     tapes
@@ -970,6 +1009,12 @@ pub fn record_c16(a: &Args) -> usize {
             n += 1;
             run_pm(&mut out, m, t, None, false);
         }
+        // the request itself coming back as the reply line (local echo), followed by a genuine reply
+        if matches!(m, Message::Hello(_) | Message::QueryState(_) | Message::RequestOperation(_, _)) {
+            let mut t = catch(|| Frame::from(m.clone()).to_bytes_with_newline()).unwrap_or_default();
+            t.extend_from_slice(&Frame::from(Message::ReportState(Address(3), State::PageLoaded)).to_bytes_with_newline());
+            run_pm(&mut out, m, &t, None, false);
+        }
         // a failure injected at each port operation of the exchange
         if !is_sd || n % 8 == 0 {
             for f in 0..3 {
@@ -1034,7 +1079,7 @@ pub fn record_c18(a: &Args) -> usize {
     let own = Address(3);
     // every message kind, each followed immediately by the next message (the gap to the next write is what is paced)
     let mut msgs: Vec<Message<'static>> = vec![];
-    for _ in 0..trials {
+    for trial in 0..trials {
         msgs.push(Message::Hello(own));
         msgs.push(Message::QueryState(own));
         msgs.push(Message::Goodbye(own));
@@ -1050,6 +1095,15 @@ pub fn record_c18(a: &Args) -> usize {
             let d: Vec<u8> = (0..len).map(|_| rng.r#gen()).collect();
             msgs.push(Message::SendData(Offset(16), Data::try_new(d).unwrap()));
             msgs.push(Message::DataChunksSent(ChunkCount(1)));
+        }
+        if trial == 0 {
+            // a data chunk of every length class (thorough: every length): the pause does not depend on the size
+            for len in 0..=255usize {
+                if thorough || len % 8 == 0 || len % 16 == 1 || len % 16 == 15 {
+                    msgs.push(Message::SendData(Offset(len as u16), Data::try_new(vec![(len % 251) as u8; len]).unwrap()));
+                    msgs.push(Message::Goodbye(own));
+                }
+            }
         }
         msgs.push(Message::SendData(Offset(0), Data::try_new(vec![7; 16]).unwrap()));
         msgs.push(Message::SendData(Offset(16), Data::try_new(vec![8; 16]).unwrap()));
